@@ -319,7 +319,8 @@ int imports_obj_find_code_from_symbol(
   const uint8_t *symbol_string_table = NULL;
   int symbol_table_size = 0;
   int symbol_string_table_size = 0;
-  int text_offset = 0;
+  uint32_t text_offset = 0;
+  uint32_t text_size = 0;
 
   // Point to strtab for section names.
   int e_shstrndx = get_int16_le(elf_header->e_shstrndx);
@@ -356,9 +357,10 @@ int imports_obj_find_code_from_symbol(
       symbol_string_table_size = sh_size;
     }
       else
-    if (/* sh_type == SHT_STRTAB &&*/ strcmp(name, ".text") == 0)
+    if (sh_type != SHT_NOBITS && strcmp(name, ".text") == 0)
     {
       text_offset = sh_offset;
+      text_size = sh_size;
     }
 
     ptr += section_size;
@@ -379,6 +381,15 @@ int imports_obj_find_code_from_symbol(
 
     if (ret == 0)
     {
+      // The function has to lie inside the .text section (which
+      // imports_obj_verify() found inside the file): the linker copies
+      // function_size bytes from there.
+      if (offset > text_size || *function_size > text_size - offset)
+      {
+        *function_size = 0;
+        return -1;
+      }
+
       *file_offset = text_offset + offset;
       *function_offset = offset;
 
